@@ -809,6 +809,28 @@ def gen_unit_cases(ctx):
     return jobs
 
 
+def gen_truncation_cases(ctx):
+    """RFC 7208 7.3: an expanded name longer than 253 characters loses leading labels until it fits.  Targets of
+    include / redirect / exp / exists / a built from the local part so that the name is 250..258 characters long."""
+    out = []
+    labels = ['a' * 60, 'b' * 60, 'c' * 59]
+    rest = '.'.join(labels) + '.example.com'          # 193 characters
+    assert len(rest) == 193
+    hit = V4[0]
+    for L in range(55, 65):
+        local = 'l' * L
+        full = local + '.' + rest                      # L + 194 characters
+        for mech in ('include:%{l}.' + rest + ' -all', 'redirect=%{l}.' + rest, '?all exp=%{l}.' + rest, 'exists:%{l}.' + rest + ' -all',
+                     'a:%{l}.' + rest + ' -all'):
+            zone = [zT('d0.example.com', [('v=spf1 ' + mech).encode()]),
+                    zT(rest, [b'v=spf1 +all' if 'exp=' not in mech else b'truncated name']),
+                    zT(full, [b'v=spf1 -all' if 'exp=' not in mech else b'full name']),
+                    zA(rest, [hit]), zQ(rest, [hit]), zA(full, [V4[1]]), zQ(full, [V4[1]])]
+            out.append(spf_line('d0.example.com', sess(hit, (local + '@d0.example.com').encode()), zone))
+            ctx.count('zone:truncation')
+    return out
+
+
 def corpus_cases():
     cdir = os.path.join(vlib.VERIF, 'corpus', 'C11')
     out = []
@@ -867,6 +889,7 @@ def run(ctx):
         cases += [gen_rfc_single_case(rng, ctx) for _ in range(nz)]
         cases += [gen_raw_case(rng, ctx) for _ in range(nz // 3)]
         cases += [gen_limit_edge_case(rng, ctx) for _ in range(nz // 3)]
+        cases += gen_truncation_cases(ctx)
         res = vlib.differential(ctx, 'check_host', h, cases, pred=pred, known_class=known_class,
                                 nontrivial=lambda c, o: o.count(',') >= 1,
                                 corr_name='model QsmtpModel.Spf.checkHost vs qsmtpd/spf.c:check_host (+ lib/qdns.c) incl. the DNS query trace')
